@@ -119,8 +119,35 @@ m('M62-tovec-chunk-64', ['C10'], (PB, "\tchunkSize := 56", "\tchunkSize := 64"))
 m('M63-pack-base-2-32', ['C10'], (PB, "\t\talpha = new(big.Int).Mul(alpha, alpha)\n", ""))
 m('M64-tovec-width-254', ['C10', 'C11'], (PB, "\tbits := c.api.ToBinary(hash)", "\tbits := c.api.ToBinary(hash, 254)"))
 
+# ---- C15 (narrow: selector filter / position-wise sum)
+EG = 'plonk/gates/evaluate_gates.go'
+GV = 'plonk/gates/vars.go'
+GS = 'plonk/gates/selectors.go'
+m('M65-filter-no-row-skip', ['C15'], (EG, "\t\tif i == uint64(row) {\n\t\t\tcontinue\n\t\t}\n", ""))
+m('M66-filter-end-inclusive', ['C15'], (EG, "i < groupRange.end; i++", "i <= groupRange.end; i++"))
+m('M67-filter-unused-always', ['C15'], (EG, "\tif manySelector {\n\t\ttmp", "\tif manySelector || true {\n\t\ttmp"))
+m('M68-filter-many-ge-1', ['C15'], (EG, "numSelectors > 1)", "numSelectors > 0)"))
+m('M69-selector-after-strip', ['C15'], (EG, "\tfilter := g.computeFilter(row, groupRange, vars.localConstants[selectorIndex], numSelectors > 1)\n\n\tvars.RemovePrefix(numSelectors)\n", "\tvars.RemovePrefix(numSelectors)\n\tfilter := g.computeFilter(row, groupRange, vars.localConstants[selectorIndex], numSelectors > 1)\n"))
+m('M70-no-remove-prefix', ['C15'], (EG, "\tvars.RemovePrefix(numSelectors)\n", "\tif numSelectors > 1 {\n\t\tvars.RemovePrefix(numSelectors)\n\t}\n"))
+m('M71-filter-skips-first', ['C15'], (EG, "\tfor i := range unfiltered {\n\t\tunfiltered[i] = glApi.MulExtension(unfiltered[i], filter)", "\tfor i := 1; i < len(unfiltered); i++ {\n\t\tunfiltered[i] = glApi.MulExtension(unfiltered[i], filter)"))
+m('M72-sum-shifted', ['C15'], (EG, "\t\t\tconstraints[i] = glApi.AddExtension(constraints[i], constraint)", "\t\t\tconstraints[0] = glApi.AddExtension(constraints[0], constraint)"))
+m('M73-sum-overwrites', ['C15'], (EG, "\t\t\tconstraints[i] = glApi.AddExtension(constraints[i], constraint)", "\t\t\tconstraints[i] = glApi.AddExtension(gl.ZeroExtension(), constraint)"))
+m('M74-group-by-row', ['C15'], (EG, "\t\t\tg.selectorsInfo.groups[selectorIndex],", "\t\t\tg.selectorsInfo.groups[i],"))
+m('M75-selector-of-first-gate', ['C15'], (EG, "selectorIndex := g.selectorsInfo.selectorIndices[i]", "selectorIndex := g.selectorsInfo.selectorIndices[0]"))
+m('M76-remove-prefix-off-by-one', ['C15'], (GV, "e.localConstants = e.localConstants[numSelectors:]", "e.localConstants = e.localConstants[numSelectors+1:]"))
+m('M77-unused-selector-value', ['C15'], ('plonk/gates/types.go', "const UNUSED_SELECTOR = uint64(^uint32(0))", "const UNUSED_SELECTOR = uint64(^uint32(0)) - 1"))
+m('M80-num-selectors-minus', ['C15'], ('plonk/gates/types.go', "\treturn uint64(len(s.groups))", "\treturn uint64(len(s.selectorIndices))"))
+m('M78-skip-last-gate', ['C15', 'C01'], (EG, "\tfor i, gate := range g.gates {", "\tfor i, gate := range g.gates[:len(g.gates)-1] {"))
+m('M79-filter-sub-reversed', ['C15'], (EG, "\t\tproduct = glApi.MulExtension(product, glApi.SubExtension(tmp, s))\n\t}\n\n\tif manySelector", "\t\tproduct = glApi.MulExtension(product, glApi.SubExtension(s, tmp))\n\t}\n\n\tif manySelector"))
+
+# ---- added after the second round of seeded changes
+m('M81-inverse-guard-on-output', ['C05', 'C07'], (B, "\tisZero := p.api.IsZero(x.Limb)\n\thasInv := p.api.Sub(1, isZero)\n\tp.RangeCheck(inverse)", "\tisZero := p.api.IsZero(inverse.Limb)\n\thasInv := p.api.Sub(1, isZero)\n\tp.RangeCheck(inverse)"))
+m('M82-batch-shift-wrong-len', ['C13'], (F, "f.gl.ExpExtension(friAlpha, uint64(len(evals)))", "f.gl.ExpExtension(friAlpha, uint64(len(reducedOpenings)))"))
+m('M83-leaf-subslice', ['C12'], (F, "\t\tevals := proof.EvalsProofs[i].Elements\n", "\t\tevals := proof.EvalsProofs[i].Elements[1:]\n"))
+m('M84-sponge-zero-extend', ['C09', 'C02'], (PG, "\t\t\tif i+j < len(input) {\n\t\t\t\tstate[j] = input[i+j]\n\t\t\t}", "\t\t\tif i+j < len(input) {\n\t\t\t\tstate[j] = input[i+j]\n\t\t\t} else {\n\t\t\t\tstate[j] = gl.Zero()\n\t\t\t}"))
+
 # ---- behaviour-preserving refactors: must stay silent on every property
-ALL = ['C01', 'C02', 'C03', 'C04', 'C05', 'C06', 'C07', 'C08', 'C09', 'C10', 'C11', 'C12', 'C13', 'C14', 'C16', 'C17', 'C18', 'C19', 'C20']
+ALL = ['C01', 'C02', 'C03', 'C04', 'C05', 'C06', 'C07', 'C08', 'C09', 'C10', 'C11', 'C12', 'C13', 'C14', 'C15', 'C16', 'C17', 'C18', 'C19', 'C20']
 m('R02-inline-assertLeadingZeros', [], (F, "\tf.assertLeadingZeros(friChallenges.FriPowResponse, f.friParams.Config)\n", "\tf.gl.RangeCheckWithMaxBits(friChallenges.FriPowResponse, 64-f.friParams.Config.ProofOfWorkBits)\n"))
 m('R03-indexed-loops-sweep', [], (V, "\tfor _, wire := range proof.Openings.Wires {\n\t\tc.glChip.RangeCheckQE(wire)\n\t}", "\tfor i := 0; i < len(proof.Openings.Wires); i++ {\n\t\tc.glChip.RangeCheckQE(proof.Openings.Wires[i])\n\t}"))
 m('R04-split-ext-assert', [], (P, "\t\tglApi.AssertIsEqualExtension(vanishingPolysZeta[i], prod)", "\t\tglApi.AssertIsEqual(vanishingPolysZeta[i][0], prod[0])\n\t\tglApi.AssertIsEqual(vanishingPolysZeta[i][1], prod[1])"))
@@ -155,6 +182,16 @@ m('R33-fixed-define-verify-last', [], (U, "\tverifierChip := NewVerifierChip(api
 m('R34-hashnopad-range-loop', [], (PG, "\tfor i := 0; i < len(input); i++ {\n\t\tinputVars = append(inputVars, c.Gl.Reduce(input[i]))\n\t}", "\tfor _, in := range input {\n\t\tinputVars = append(inputVars, c.Gl.Reduce(in))\n\t}"))
 m('R35-final-poly-ext-assert', [], (F, "\tf.gl.AssertIsEqual(oldEval[0], finalPolyEval[0])\n\tf.gl.AssertIsEqual(oldEval[1], finalPolyEval[1])\n", "\tf.gl.AssertIsEqualExtension(oldEval, finalPolyEval)\n"))
 m('R36-regex-var-renamed', [], (G+'noop_gate.go', 'var noopGateRegex = regexp.MustCompile("NoopGate")', 'var noopGateRegex = regexp.MustCompile("NoopGat" + "e")'))
+m('R37-evalfiltered-index-loop', [], (EG, "\tfor i := range unfiltered {\n", "\tfor i := 0; i < len(unfiltered); i++ {\n"))
+m('R38-sum-index-form', [], (EG, "\t\tfor i, constraint := range gateConstraints {", "\t\tfor i := range gateConstraints {\n\t\t\tconstraint := gateConstraints[i]"))
+m('R39-filter-mul-commuted', [], (EG, "\t\tunfiltered[i] = glApi.MulExtension(unfiltered[i], filter)", "\t\tunfiltered[i] = glApi.MulExtension(filter, unfiltered[i])"))
+m('R40-filter-neq-form', [], (EG, "\t\tif i == uint64(row) {\n\t\t\tcontinue\n\t\t}\n\t\ttmp := gl.NewQuadraticExtensionVariable(gl.NewVariable(i), gl.Zero())\n\t\tproduct = glApi.MulExtension(product, glApi.SubExtension(tmp, s))\n", "\t\tif i != row {\n\t\t\ttmp := gl.NewQuadraticExtensionVariable(gl.NewVariable(i), gl.Zero())\n\t\t\tproduct = glApi.MulExtension(product, glApi.SubExtension(tmp, s))\n\t\t}\n"))
+m('R41-many-hoisted', [], (EG, "\tfilter := g.computeFilter(row, groupRange, vars.localConstants[selectorIndex], numSelectors > 1)\n", "\tsel := vars.localConstants[selectorIndex]\n\tmany := numSelectors >= 2\n\tfilter := g.computeFilter(row, groupRange, sel, many)\n"))
+m('R42-batch-shift-hoisted', [], (F, "\t\treducedEvals := f.gl.ReduceWithPowers(evals, friAlpha)\n", "\t\tnEvals := uint64(len(evals))\n\t\treducedEvals := f.gl.ReduceWithPowers(evals, friAlpha)\n"), (F, "f.gl.ExpExtension(friAlpha, uint64(len(evals)))", "f.gl.ExpExtension(friAlpha, nEvals)"))
+m('R43-batch-shift-poly-len', [], (F, "f.gl.ExpExtension(friAlpha, uint64(len(evals)))", "f.gl.ExpExtension(friAlpha, uint64(len(batch.Polynomials)))"))
+m('R44-leaf-hoisted', [], (F, "\t\tevals := proof.EvalsProofs[i].Elements\n\t\tmerkleProof := proof.EvalsProofs[i].MerkleProof\n", "\t\tep := proof.EvalsProofs[i]\n\t\tevals := ep.Elements\n\t\tmerkleProof := ep.MerkleProof\n"))
+m('R45-reduce-width-local', [], (B, "\treturn p.ReduceWithMaxBits(x, uint64(RANGE_CHECK_NB_BITS))", "\tnb := uint64(RANGE_CHECK_NB_BITS)\n\treturn p.ReduceWithMaxBits(x, nb)"))
+m('R46-inverse-select-swapped', [], (B, "\tproductToCheck := p.api.Select(hasInv, product.Limb, frontend.Variable(1))", "\tproductToCheck := p.api.Select(isZero, frontend.Variable(1), product.Limb)"))
 
 if __name__ == '__main__':
     import json, sys
